@@ -7,6 +7,7 @@ require github.com/rs/zerolog v0.0.0
 require (
 	github.com/mattn/go-colorable v0.1.13 // indirect
 	github.com/mattn/go-isatty v0.0.19 // indirect
+	github.com/rs/xid v1.6.0 // indirect
 	golang.org/x/sys v0.12.0 // indirect
 )
 
